@@ -957,8 +957,13 @@ def run(tier: str, driver_ok: bool) -> Result:
                 pass
 
     # --- model first
-    lines = [model_line(c) for c in cases]
-    model = drive(lines) if driver_ok else [None] * len(lines)
+    # (documents beyond 200 000 characters are judged by the property only: the list-based model is itself
+    # quadratic in the number of elements, and the hex line would be megabytes)
+    small = [i for i, c in enumerate(cases) if len(c["text"]) <= 200000]
+    model: list[Any] = [None] * len(cases)
+    if driver_ok:
+        for i, m in zip(small, drive([model_line(cases[i]) for i in small])):
+            model[i] = m
 
     # --- budgets: proved-divergent inputs are confirmed with a short budget, a capped number of them
     cap_confirm = 350 if quick else 4000
